@@ -2,12 +2,11 @@
 use super::common::*;
 use crate::amt::{self, A};
 use crate::core::*;
-use crate::gen::syn::{syna::SynA, synnoref::SynNoRef, synref::SynRef, synsingle::SynSingle};
+use crate::gen::syn::{syna::SynA, synnoref::SynNoRef, synpair::SynPair, synref::SynRef, synsingle::SynSingle};
 use qv_model::calc::{convert_spec_ev, ErrVal};
 use qv_model::{Rat, UnitModel};
 use quantities::duration::Duration;
 use quantities::length::Length;
-use quantities::mass::Mass;
 use quantities::{Quantity, Rate};
 use serde_json::json;
 
@@ -37,7 +36,7 @@ macro_rules! each_term {
     ($p:ty, $pk:expr, $blocks:expr, $setup:expr) => {
         full!(Length, "main.Length", $p, $pk, $blocks, $setup);
         full!(Duration, "main.Duration", $p, $pk, $blocks, $setup);
-        full!(Mass, "main.Mass", $p, $pk, $blocks, $setup);
+        full!(SynPair, "syn.SynPair", $p, $pk, $blocks, $setup);
         full!(SynRef, "syn.SynRef", $p, $pk, $blocks, $setup);
         full!(SynA, "syn.SynA", $p, $pk, $blocks, $setup);
         full!(SynSingle, "syn.SynSingle", $p, $pk, $blocks, $setup);
@@ -48,7 +47,7 @@ macro_rules! each_term {
 pub fn collect(blocks: &mut Vec<Block>, setup: &mut Report) {
     each_term!(Length, "main.Length", blocks, setup);
     each_term!(Duration, "main.Duration", blocks, setup);
-    each_term!(Mass, "main.Mass", blocks, setup);
+    each_term!(SynPair, "syn.SynPair", blocks, setup);
     each_term!(SynRef, "syn.SynRef", blocks, setup);
     each_term!(SynA, "syn.SynA", blocks, setup);
     each_term!(SynSingle, "syn.SynSingle", blocks, setup);
@@ -56,7 +55,7 @@ pub fn collect(blocks: &mut Vec<Block>, setup: &mut Report) {
     each_term!(SynNoRef, "syn.SynNoRef", blocks, setup);
     amt_per!(Length, "main.Length", blocks, setup);
     amt_per!(Duration, "main.Duration", blocks, setup);
-    amt_per!(Mass, "main.Mass", blocks, setup);
+    amt_per!(SynPair, "syn.SynPair", blocks, setup);
     amt_per!(SynRef, "syn.SynRef", blocks, setup);
     amt_per!(SynA, "syn.SynA", blocks, setup);
     amt_per!(SynSingle, "syn.SynSingle", blocks, setup);
